@@ -343,35 +343,46 @@ func runAdmit(id string, parts []string) string {
 				fmt.Fprintf(os.Stderr, "admit %s: teardown still running after 3 s (left behind)\n%s\n", id, buf[:n])
 			}
 		}()
-		admitStartMu.Lock()
-		for try := 0; try < 5; try++ {
-			env.udpPort, _ = c15FreePort(true)
-			env.tcpPort, _ = c15FreePort(false)
-			env.httpPort, _ = c15FreePort(false)
-			env.quicPort, _ = c15FreePort(true)
-			cfg := &router.Config{
-				Servers: []router.ServerConfig{
-					{Tag: "u", Protocol: "udp", Listen: fmt.Sprintf("127.0.0.1:%d", env.udpPort)},
-					{Tag: "t", Protocol: "tcp", Listen: fmt.Sprintf("127.0.0.1:%d", env.tcpPort)},
-					{Tag: "h", Protocol: "http", Listen: fmt.Sprintf("127.0.0.1:%d", env.httpPort),
-						Http: router.HttpConfig{ClientAddrHeader: "X-Client"}},
-					{Tag: "q", Protocol: "quic", Listen: fmt.Sprintf("127.0.0.1:%d", env.quicPort),
-						Tls: router.TlsConfig{DebugUseTempCert: true}},
-				},
-				Upstreams: []router.UpstreamConfig{{Tag: "up", Addr: fmt.Sprintf("udp://127.0.0.1:%d", uc.LocalAddr().(*net.UDPAddr).Port)}},
-				Rules:     []router.RuleConfig{{Forward: "up"}},
-				Limiter: router.LimiterConfig{
-					GlobalLimit: hx.MustAtoi(f["global"]),
-					Client: router.ClientLimiterConfig{Limit: hx.MustAtoi(f["rate"]), Burst: hx.MustAtoi(f["burst"]),
-						V4Mask: hx.MustAtoi(f["v4"]), V6Mask: hx.MustAtoi(f["v6"])},
-				},
+		func() {
+			admitStartMu.Lock()
+			defer admitStartMu.Unlock()
+			for try := 0; try < 5; try++ {
+				env.udpPort, _ = c15FreePort(true)
+				env.tcpPort, _ = c15FreePort(false)
+				env.httpPort, _ = c15FreePort(false)
+				env.quicPort, _ = c15FreePort(true)
+				cfg := &router.Config{
+					Servers: []router.ServerConfig{
+						{Tag: "u", Protocol: "udp", Listen: fmt.Sprintf("127.0.0.1:%d", env.udpPort)},
+						{Tag: "t", Protocol: "tcp", Listen: fmt.Sprintf("127.0.0.1:%d", env.tcpPort)},
+						{Tag: "h", Protocol: "http", Listen: fmt.Sprintf("127.0.0.1:%d", env.httpPort),
+							Http: router.HttpConfig{ClientAddrHeader: "X-Client"}},
+						{Tag: "q", Protocol: "quic", Listen: fmt.Sprintf("127.0.0.1:%d", env.quicPort),
+							Tls: router.TlsConfig{DebugUseTempCert: true}},
+					},
+					Upstreams: []router.UpstreamConfig{{Tag: "up", Addr: fmt.Sprintf("udp://127.0.0.1:%d", uc.LocalAddr().(*net.UDPAddr).Port)}},
+					Rules:     []router.RuleConfig{{Forward: "up"}},
+					Limiter: router.LimiterConfig{
+						GlobalLimit: hx.MustAtoi(f["global"]),
+						Client: router.ClientLimiterConfig{Limit: hx.MustAtoi(f["rate"]), Burst: hx.MustAtoi(f["burst"]),
+							V4Mask: hx.MustAtoi(f["v4"]), V6Mask: hx.MustAtoi(f["v6"])},
+					},
+				}
+				// a listener that fails to start (port taken meanwhile) makes run() return an error -- or panic
+				// in its clean-up (nil server closer, defect D13 of C18): either way try other ports
+				stop, err = func() (st func(), e error) {
+					defer func() {
+						if r := recover(); r != nil {
+							e = fmt.Errorf("router start panicked: %v", r)
+						}
+					}()
+					return router.VerifC15Start(cfg)
+				}()
+				if err == nil {
+					break
+				}
 			}
-			stop, err = router.VerifC15Start(cfg)
-			if err == nil {
-				break
-			}
-		}
-		admitStartMu.Unlock()
+		}()
 		if err != nil {
 			return "HARNESS-ERROR router start: " + err.Error()
 		}
